@@ -146,10 +146,11 @@ impl SpanBuilder {
             let decorators = self.decorators.drain(..).collect();
             target.push(CodeBlock::new_span_with_decorators(ops, decorators));
         } else if !self.decorators.is_empty() {
-            // this is a bug in the assembler. we shouldn't have decorators added without their
-            // associated operations
-            // TODO: change this to an error or allow decorators in empty span blocks
-            unreachable!("decorators in an empty SPAN block")
+            // decorators which are not followed by any operation in this span (e.g. `emit` right
+            // before `if.true`, or a body consisting only of decorators): a SPAN block cannot be
+            // empty, so they are attached to a single NOOP
+            let decorators = self.decorators.drain(..).collect();
+            target.push(CodeBlock::new_span_with_decorators(vec![Operation::Noop], decorators));
         }
     }
 
